@@ -473,6 +473,19 @@ pub fn run_seq(case: &Case, oracles: &mut [Box<dyn Oracle>], opts: &SeqOpts) -> 
             }
         }
     }
+    // listed finding cyc-kf6 in the FRESH database of the differential: it does not converge on a
+    // program with value-dependent call order while the incremental database returned a value
+    if case.prog.lattice && crate::props::cyc::value_dependent(&case.prog) {
+        let differential = |v: &Violation| v.rule == "ORACLE-DISAGREE/fresh-vs-reference" || v.rule == "incremental-differs-from-fresh-db";
+        let osc_steps: Vec<usize> = violations.iter().filter(|v| differential(v) && v.detail.contains("fresh Err") && v.detail.contains("too many cycle iterations")).map(|v| v.step).collect();
+        for v in violations.iter_mut() {
+            // the heads that were on the stack stay poisoned in the fresh database for that revision
+            let consequence = v.detail.contains("fresh Err") && (v.detail.contains("too many cycle iterations") || v.detail.contains("PropagatedPanic"));
+            if differential(v) && consequence && osc_steps.contains(&v.step) {
+                v.rule = crate::props::cyc::KF_OSCILLATION.to_string();
+            }
+        }
+    }
     // a mismatch that an oracle classified as a listed-finding pattern ("kf:" rules) also shows
     // up in the fresh-database differential of the same step: keep only the classified one
     let kf_steps: Vec<usize> = violations.iter().filter(|v| v.rule.starts_with("kf:")).map(|v| v.step).collect();
